@@ -16,7 +16,7 @@ func init() { core.Register(c08{}) }
 func (c08) ID() string    { return "C08" }
 func (c08) Level() string { return "exploration" }
 func (c08) Rule() string {
-	return "seeded populations with arbitrary qualifier / Primary / naming attributes (types that declare no qualifier, an empty one, one of g1..g3); holders (palette nodes and reflect.StructOf holders) with 1..5 tagged fields mixing qualified points (bare qualifier, one value, two values, unknown value, capitalised argument name), unqualified by-type points, by-name points and optional points without any candidate (absent name / no qualifier match) placed at arbitrary positions among them; each scenario under 4 registration x enumeration x candidate orders. Oracle: reference model per field: every element of a qualified point declares a qualifier from the requested set; a unique Primary wins, else (no Primary) a unique unnamed component; independent of the holder's other fields. non-trivial = holder with >= 2 tagged fields of which one is narrowed (qualifier argument, or several candidates with a unique Primary / unique unnamed); distinct = canonical scenario signature; zero-size candidates with different qualifiers / Primary marks take part; a third of the cases add a holder that is itself a (merely ordered) post-processor; a subset-answering post-processor between collection and narrowing; qualifier sets widened at run time through AddArg (the model narrows with the widened sets); explicitly empty qualifier items; qualifiers widened through the map Property.Args() hands out; optional points of odd kinds in front of the other points of literal holders; components named exactly like their type / like a qualifier word"
+	return "seeded populations with arbitrary qualifier / Primary / naming attributes (types that declare no qualifier, an empty one, one of g1..g3); holders (palette nodes and reflect.StructOf holders) with 1..5 tagged fields mixing qualified points (bare qualifier, one value, two values, unknown value, capitalised argument name), unqualified by-type points, by-name points and optional points without any candidate (absent name / no qualifier match) placed at arbitrary positions among them; each scenario under 4 registration x enumeration x candidate orders. Oracle: reference model per field: every element of a qualified point declares a qualifier from the requested set; a unique Primary wins, else (no Primary) a unique unnamed component; independent of the holder's other fields. non-trivial = holder with >= 2 tagged fields of which one is narrowed (qualifier argument, or several candidates with a unique Primary / unique unnamed); distinct = canonical scenario signature; zero-size candidates with different qualifiers / Primary marks take part; a third of the cases add a holder that is itself a (merely ordered) post-processor; a subset-answering post-processor between collection and narrowing; qualifier sets widened at run time through AddArg (the model narrows with the widened sets); explicitly empty qualifier items; qualifiers widened through the map Property.Args() hands out; optional points of odd kinds in front of the other points of literal holders; components named exactly like their type / like a qualifier word; configuration fields next to the wiring points of the same holder; sameFieldNames family (equally named points in two embedded structs)"
 }
 func (c08) Assumptions() []string {
 	return []string{"two Primaries / several unnamed candidates without a Primary: the statements are silent, any member of the candidate set is accepted"}
